@@ -143,7 +143,10 @@ class ConciliationMonitor(Monitor):
             if record['strategy'] in ('SENICIDE', 'INFANTICIDE'):
                 # at most all copies but one
                 asked = {t for ns, t, _ in record['stops'] if ns == namespec}
-                if asked >= set(record['conflicts'][namespec]):
+                if asked >= set(record['conflicts'][namespec]) and self.other_cause(inst, namespec.split(':')[0]):
+                    # e.g. the running failure strategy of a process lost with an instance (partition) applies too
+                    self.count('all_copies_stopped_explained_by_another_plan')
+                elif asked >= set(record['conflicts'][namespec]):
                     self.violate(f"C05/{record['strategy'].lower()}-stops-every-copy",
                                  f"{inst.nick} has asked every copy of {namespec} to stop "
                                  f"({sorted(asked)}) at vt={vt(w)}", case=self.run.describe())
